@@ -85,6 +85,8 @@ def check(ctx: Ctx) -> None:
                               f.path, line, operand=a)
     from ..idioms import check_none_tests
     check_none_tests(ctx, 'C16.f', [FUND], floor=1)            # cheap definite rule first
+    from ..idioms import check_shared_memos
+    check_shared_memos(ctx, 'C16.g', [FUND], floor=4)
     ctx.rule('C16.a', 'PER/SE/BER/SER compositions equal the specification terms', floor=12)
     SNR, L = T.Term.sym('SNR'), T.Term.sym('packet_length')
     B = _self_atom('calcTheoreticalBER', SNR)
